@@ -86,6 +86,16 @@ func hasDotDot(name string) bool {
 	return false
 }
 
+// c14DotDotAfterCid: the first part (after an optional "/orbitdb/") decodes as a CID and a
+// later part is ".." — the strings that the ".." test of address.IsValid is about.
+func c14DotDotAfterCid(s string) bool {
+	parts := strings.Split(strings.TrimPrefix(s, "/orbitdb/"), "/")
+	if _, err := cid.Decode(parts[0]); err != nil {
+		return false
+	}
+	return hasDotDot(strings.Join(parts[1:], "/"))
+}
+
 var c14Types = map[string]int{"eventlog": 1, "keyvalue": 2, "docstore": 3, "nosuchtype": 4}
 
 // c14Det is the observation of one DetermineAddress call.
@@ -143,6 +153,25 @@ func c14Determine(ctx context.Context, o orbitdb.OrbitDB, name, typ string, w []
 		d.reOK, d.reRoot, d.rePath = true, b.GetRoot().String(), b.GetPath()
 	}
 	return d
+}
+
+// c14Parse is the observation of one address.Parse call (class "ok" | "EBadInput" | "panic").
+func c14Parse(str string) (d c14Det, valid bool) {
+	defer func() {
+		if p := recover(); p != nil {
+			d = c14Det{class: "panic", errMsg: fmt.Sprint(p)}
+		}
+	}()
+	valid = address.IsValid(str) == nil
+	a, err := address.Parse(str)
+	if err != nil {
+		return c14Det{class: "EBadInput", errMsg: err.Error()}, valid
+	}
+	d = c14Det{class: "ok", addr: a, str: a.String()}
+	if b, err := address.Parse(d.str); err == nil {
+		d.reOK, d.reRoot, d.rePath = true, b.GetRoot().String(), b.GetPath()
+	}
+	return d, valid
 }
 
 func (d c14Det) key() string {
@@ -290,6 +319,7 @@ func runC14(r *Run) error {
 	templated := func() string {
 		ct := cidTexts()
 		c := ct[r.Rng.Intn(len(ct))]
+		c2 := ct[r.Rng.Intn(len(ct))]
 		x := plain[r.Rng.Intn(len(plain))]
 		y := plain[r.Rng.Intn(len(plain))]
 		z := uni[r.Rng.Intn(len(uni))]
@@ -303,13 +333,54 @@ func runC14(r *Run) error {
 			"/orbitdb/", "/orbitdb", "orbitdb", x + "/" + c, x + "/" + c + "/..", "/" + c, "./" + c, "//" + c + "/" + x,
 			"../" + x + "/../" + c + "/" + y, x + "/" + long1, strings.Repeat("p/", 40) + "q", strings.Repeat("W", 5000),
 			"../" + strings.Repeat("../", 1+r.Rng.Intn(3)) + "orbitdb/" + c,
+			// address-looking names (first part a CID) with ".." after the root: trailing, middle,
+			// directly after the root, behind "." and empty parts, with the "/orbitdb/" prefix;
+			// and look-alikes of ".." that are ordinary parts
+			c + "/..", c + "/../", c + "/" + x + "/..", c + "/" + x + "/" + y + "/..", c + "/../" + x, c + "/" + x + "/../" + y,
+			c + "/./..", c + "//..", c + "/" + x + "/./../" + y, c + "/../" + c2 + "/" + y, c + "/../../" + c2 + "/" + y,
+			c + "/" + x + "/../../" + c2, c + "/" + z + "/..", c + "/..a", c + "/a..", c + "/...", c + "/.. ", c + "/" + x + "/.../" + y,
+			"/orbitdb/" + c + "/..", "/orbitdb/" + c + "/" + x + "/..", "/orbitdb/" + c + "/../" + x, "/orbitdb/" + c + "/" + x + "/../" + y,
+			"/orbitdb/" + c + "/../" + c2 + "/" + y, "/orbitdb/" + c + "/..a", "/orbitdb/../" + c, "/orbitdb/../" + c + "/" + x,
+			"/orbitdb//orbitdb/" + c + "/..", "../" + c + "/..", "../" + c + "/" + x + "/..", x + "/../" + c + "/..", "./" + c + "/..",
+			"../" + c + "/" + x + "/../" + y, "../" + c + "/../" + c2 + "/" + y,
+		}
+		return ts[r.Rng.Intn(len(ts))]
+	}
+	// strings given to address.Parse: addresses and near-addresses, ".." leading, in the middle,
+	// trailing, directly after the root, with and without the "/orbitdb/" prefix
+	parseInput := func() string {
+		ct := cidTexts()
+		c := ct[r.Rng.Intn(len(ct))]
+		c2 := ct[r.Rng.Intn(len(ct))]
+		x := plain[r.Rng.Intn(len(plain))]
+		y := plain[r.Rng.Intn(len(plain))]
+		switch k := r.Rng.Intn(100); {
+		case k < 22:
+			return c + "/" + randName()
+		case k < 34:
+			return "/orbitdb/" + c + "/" + randName()
+		case k < 40:
+			return randName()
+		}
+		ts := []string{
+			c, c + "/", c + "//", c + "/" + x, c + "/" + x + "/" + y, c + "//" + x, c + "/./" + x, c + "/" + x + "/", c + "/" + x + "/.", c + "/.",
+			c + "/..", c + "/../", c + "/" + x + "/..", c + "/" + x + "/" + y + "/..", c + "/../" + x, c + "/" + x + "/../" + y,
+			c + "/./..", c + "//..", c + "/../" + c2 + "/" + y, c + "/../../" + c2, c + "/" + x + "/../../" + c2 + "/" + y,
+			c + "/..a", c + "/a..", c + "/...", c + "/.. ", c + "/ ..", c + "/" + x + "/.../" + y, c + "/" + c2, c + "/" + c2 + "/..",
+			"/orbitdb/" + c, "/orbitdb/" + c + "/", "/orbitdb/" + c + "/" + x, "/orbitdb/" + c + "/" + x + "/" + y,
+			"/orbitdb/" + c + "/..", "/orbitdb/" + c + "/" + x + "/..", "/orbitdb/" + c + "/../" + x, "/orbitdb/" + c + "/" + x + "/../" + y,
+			"/orbitdb/" + c + "/../" + c2 + "/" + y, "/orbitdb/" + c + "/" + x + "/../../" + c2, "/orbitdb/" + c + "/..a",
+			"/orbitdb/../" + c, "/orbitdb/../" + c + "/" + x, "/orbitdb//" + c, "/orbitdb//orbitdb/" + c + "/..", "/orbitdb/orbitdb/" + c,
+			"../" + c, "../" + c + "/" + x, "../" + c + "/..", x + "/../" + c, x + "/" + c, "./" + c, "/" + c, "//" + c + "/" + x, "orbitdb/" + c, "orbitdb/" + c + "/..",
+			"/orbitdb/", "/orbitdb", "orbitdb", "", ".", "..", "/", x, x + "/..", "/orbitdb/" + x, "/orbitdb/" + x + "/..",
+			c + "/" + long1, c + "/" + strings.Repeat("../", 1+r.Rng.Intn(4)) + c2,
 		}
 		return ts[r.Rng.Intn(len(ts))]
 	}
 
-	nNames, nFull, nChain := 470, 4, 120
+	nNames, nFull, nChain, nParse := 470, 4, 120, 300
 	if r.Tier == "thorough" {
-		nNames, nFull, nChain = 4000, 30, 600
+		nNames, nFull, nChain, nParse = 4000, 30, 600, 3000
 	}
 	var inputs []c14Input
 	seenIn := map[string]bool{}
@@ -606,6 +677,9 @@ func runC14(r *Run) error {
 		}
 		if hasDotDot(name) {
 			r.Count("name:with-dotdot")
+			if c14DotDotAfterCid(name) {
+				r.Count("name:cid-then-dotdot")
+			}
 		}
 		typ := typeNames[r.Rng.Intn(3)]
 		if r.Rng.Intn(12) == 0 {
@@ -627,6 +701,41 @@ func runC14(r *Run) error {
 		if err := flush(); err != nil {
 			return err
 		}
+	}
+	// ---- address.Parse on its own -----------------------------------------------------------
+	seenParse := map[string]bool{}
+	for n := 0; n < nParse; n++ {
+		str := parseInput()
+		if seenParse[str] {
+			continue
+		}
+		seenParse[str] = true
+		d, valid := c14Parse(str)
+		de := map[string]interface{}{"kind": "parse", "string": str, "outcome": d.class, "valid": valid, "address": d.str, "error": d.errMsg}
+		if d.class == "panic" {
+			r.AddDirect("panic:address-parse", d.errMsg, de)
+			continue
+		}
+		r.Count("parse:" + d.class)
+		if hasDotDot(str) {
+			r.Count("parse:with-dotdot")
+			if c14DotDotAfterCid(str) {
+				r.Count("parse:cid-then-dotdot")
+			}
+		}
+		if d.class == "ok" && (!d.reOK || d.reRoot != d.addr.GetRoot().String()) {
+			de["sig"] = "address-parse-prints-other-root"
+			if hasDotDot(str) {
+				de["sig"] = "address-parse-prints-other-root-dotdot"
+			}
+		}
+		obs, ostr, re := coqObs(d)
+		texts := strings.Split(str, "/")
+		if d.class == "ok" {
+			texts = append(texts, d.addr.GetRoot().String())
+			texts = append(texts, strings.Split(d.str, "/")...)
+		}
+		r.AddCase(fmt.Sprintf("(CParse %s %s %s %s %s %s)", tok.split(str), cidEntries(texts), sim.CoqBool(valid), obs, ostr, re), de, true)
 	}
 	r.Dist["distinct-addresses"] = len(byAddr)
 	r.Dist["inputs"] = len(inputs)
